@@ -6,6 +6,8 @@ from concurrent.futures import ThreadPoolExecutor
 VERIF=os.path.dirname(os.path.dirname(os.path.abspath(__file__)))
 def main():
     patch=os.path.abspath(sys.argv[1]); ids=sys.argv[2:]
+    if not ids and os.environ.get('VERIF_ONLY'):
+        ids=os.environ['VERIF_ONLY'].split()          # targeted regression: only the checks whose rules changed
     if not ids:
         ids=[c['property_id'] for c in json.load(open(os.path.join(VERIF,'MANIFEST.json')))['checks']]
     tmp=tempfile.mkdtemp(prefix='rebverif_seed_')
